@@ -108,6 +108,17 @@ def rule_place_header(ck: Check, repo: Repo, rid: str = "R1") -> None:
         if got != exp:
             r.violation(q, f"[{show_valuation(d)}]", f"assembles {got}; the blank-line policy says {exp}", repo.loc(fn),
                         {"cell": d})
+    # clause 'keeps the presence or absence of a final newline': when nothing follows the header, the assembled text ends
+    # in the newline place_header appends itself; whether the ORIGINAL text ended in one is not among its inputs
+    params = [a.arg for a in fn.args.args]
+    tail_cells = [flatten(leaf.outcome[1]) for d, leaf, _ in leaves if leaf.outcome[0] == "return" and d.get("after") is False]
+    forced = [c for c in tail_cells if c and isinstance(c[-1], str) and c[-1].endswith("\n")]
+    r.instance("final-newline", {"cells_with_nothing_after": len(tail_cells), "end_in_appended_newline": len(forced), "parameters": params})
+    if forced and not any(p in ("final_newline", "ends_with_newline", "trailing_newline", "text") for p in params):
+        r.violation(q, "final newline added when nothing follows the header",
+                    "a file that consists of its header alone and has no final newline (`# SPDX-License-Identifier: MIT` without"
+                    " `\\n`) is written back with one: the newline after the header is unconditional and place_header is not told"
+                    " how the original text ended", repo.loc(fn))
 
 
 def rule_newlines(ck: Check, repo: Repo) -> None:
@@ -350,6 +361,22 @@ def rule_partition(ck: Check, repo: Repo, rid: str = "R4") -> None:
             r.violation(cq, "the line list is modified before the block is re-joined", ast.unparse(mnode)[:80], repo.loc(mnode))
         r.instance(f"prefix:{cq}", {"function": cq, "returns": [t for t, _ in forms], "all_prefixes": all(o for _, o in forms)}, cq)
     r.floor(2, "comment_at_first_character implementations", got=n_impl)
+    # the multi-line scan must recognise the closing delimiter also when blanks follow it on the line: otherwise the
+    # "block" runs on to the next line that happens to end in the delimiter and everything in between is deleted
+    cf = repo.func(f"reuse.comment.CommentStyle.comment_at_first_character")
+    ends = [n for n in ast.walk(cf) if isinstance(n, ast.If) and "MULTI_LINE.end" in ast.unparse(n.test)
+            and any(isinstance(b, ast.Break) for b in n.body)]
+    for n in ends:
+        t = ast.unparse(n.test)
+        lv = next((x.id for x in ast.walk(n.test) if isinstance(x, ast.Name) and x.id not in ("cls", "self")), "line")
+        tolerant = t in (f"{lv}.rstrip().endswith(cls.MULTI_LINE.end)", f"cls.MULTI_LINE.end in {lv}", f"{lv}.strip().endswith(cls.MULTI_LINE.end)")
+        r.instance("multi-line-end-test", {"test": t, "tolerates_trailing_blanks": tolerant}, "reuse.comment.CommentStyle.comment_at_first_character")
+        if not tolerant:
+            r.violation("reuse.comment.CommentStyle.comment_at_first_character", f"the end of a multi-line block is tested with `{t}`",
+                        "a closing delimiter followed by blanks (`*/ `) is not seen; the header block then extends to the next line"
+                        " ending in the delimiter and the code in between is deleted when the header is replaced", repo.loc(n))
+    if not ends:
+        raise AnalysisError("comment_at_first_character: multi-line end test not found")
     if "if contains_reuse_info(comment):" not in src:
         r.violation(q, "first block WITH REUSE information", "only a comment block that contains REUSE info is the header", repo.loc(fn))
 
